@@ -1,5 +1,86 @@
+(** C10 — property theorems (proofs in C10/Proofs.v).  Model: C10/Model.v,
+    constants from command/src/scm_socket.rs through C10/Gen.v (tree after
+    fix 497e2c8). *)
 From Coq Require Import List Arith NArith Lia Bool.
-From SV Require Import C10.Gen C10.Model.
+From SV Require Import C10.Gen C10.Model C10.Proofs.
 Import ListNotations.
-Theorem count_nil : count (mkl (@nil nat) [] [] []) = 0.
+
+(** manifest_fits: for ANY listener set up to the documented descriptor limit,
+    whatever the family mix, with address texts up to 62 bytes (the longest
+    SocketAddr text has 58), the manifest fits the receive buffer.  (With the
+    former 4096-byte buffer this was false from 179 IPv4 / 84 IPv6 listeners:
+    corpus/C10/manifest_over_4096.case.) *)
+Theorem manifest_fits :
+  forall l, count l <= max_fds_out -> all_addr (fun s => length s <= 62) l ->
+    length (encode l) <= max_bytes_out.
+Proof. exact manifest_fits_lemma. Qed.
+
+(** FULL STATEMENT (manifest_roundtrip): count l <= MAX_FDS_OUT ->
+    transfer l = ROk (pair_up l (seq 0 (count l))) — every address paired with
+    its own descriptor, family order preserved.  Proved here per layer: the
+    length prefix round-trips for every manifest size below 16384, and the
+    entries of one family decode back in order, appended to what was decoded
+    before, leaving the rest of the message untouched.  The composition of the
+    four families inside [receive] is not mechanised (it is what the
+    correspondence run exercises): *_partial. *)
+Theorem manifest_roundtrip_partial :
+  (forall n r, n < 128 * 128 -> varint_decode 10 (varint n ++ r) = Some (n, r)) /\
+  (forall tag, 1 <= tag <= 4 -> forall ss fuel rest acc,
+     Forall (fun s => length s < 128) ss -> length ss <= fuel ->
+     decode_fields (fuel + length rest) (concat (map (field tag) ss) ++ rest) acc =
+     decode_fields (fuel - length ss + length rest) rest (fold_left (fun a s => push tag s a) ss acc)).
+Proof. split; [exact varint_decode_two|exact decode_fields_app]. Qed.
+
+(** no_fd_lost: once the old worker has returned its listen sockets (it keeps
+    its own copies: SCM_RIGHTS duplicates, return_listen_sockets takes and does
+    not close), EVERY interleaving of receive / old-worker exit / old-worker
+    crash / repeated returns keeps at least one holder of the listening socket *)
+Theorem no_fd_lost :
+  forall steps, alive (fold_left hand steps (mko true true false)) = true.
+Proof.
+  intros steps.
+  assert (G : forall o, in_flight o = true \/ new_w o = true ->
+                        let o' := fold_left hand steps o in in_flight o' = true \/ new_w o' = true).
+  { induction steps as [|s steps IH]; intros o I; cbn [fold_left]; [exact I|].
+    apply IH. destruct o as [a b c]; destruct s; cbn in *; destruct a, b, c; cbn; auto;
+      destruct I; discriminate. }
+  specialize (G (mko true true false) (or_introl eq_refl)). cbn zeta in G.
+  unfold alive. destruct G as [G|G]; rewrite G; rewrite ?orb_true_r; reflexivity.
+Qed.
+
+(** …and the hypothesis is needed: a crash before the sockets were returned loses the listener *)
+Theorem crash_before_return_loses :
+  alive (hand (mko true false false) HOldCrash) = false.
 Proof. reflexivity. Qed.
+
+(** soft_stop_once: after SoftStop(id), for EVERY schedule of session progress
+    and event-loop turns, the worker writes exactly one OK carrying that id, or
+    none yet; it answers only when the remaining sessions are at or below the
+    floor; it accepts nothing after the request *)
+Theorem soft_stop_once :
+  forall s id sched s' d,
+    turns (soft_stop s id) sched = (s', d) ->
+    answers s' = answers s ++ (if d then [id] else []) /\
+    accepting s' = false /\
+    (d = true -> length (sessions s') <= base s /\ stopping s' = None).
+Proof.
+  intros s id sched s' d H.
+  pose proof (turns_once sched (soft_stop s id) s' d id eq_refl H) as (A & B & C).
+  change (answers (soft_stop s id)) with (answers s) in *.
+  change (base (soft_stop s id)) with (base s) in *.
+  change (accepting (soft_stop s id)) with false in *.
+  destruct d.
+  - destruct (A eq_refl) as (X & Y & Z).
+    split; [exact X|]. split; [exact C|]. intros _. split; [exact Z|exact Y].
+  - destruct (B eq_refl) as (X & Y). rewrite app_nil_r.
+    split; [exact X|]. split; [exact C|]. discriminate.
+Qed.
+
+Example manifest_fits_nonvacuous :
+  let l := mkl (repeat (repeat 49%N 47) 50) (repeat (repeat 49%N 47) 50) (repeat (repeat 49%N 21) 50) (repeat (repeat 49%N 21) 50) in
+  count l = max_fds_out /\ length (encode l) = 7 * 1000 + 202.
+Proof. vm_compute. split; reflexivity. Qed.
+
+Example soft_stop_nonvacuous :
+  snd (turns (soft_stop (mksrv None 1 [false; false; false] true []) 7) [[true]; []; [false; true; true]]) = true.
+Proof. vm_compute. reflexivity. Qed.
